@@ -72,7 +72,10 @@ def worker_main(argv: list[str]) -> int:
     t0 = time.monotonic()
     i = widx
     n = 0
+    stopfile = os.environ.get("CIRSIM_STOPFILE")
     while n < max_runs and time.monotonic() - t0 < budget:
+        if stopfile and os.path.exists(stopfile):
+            break  # another worker has found a violation: the batch's verdict is settled
         run_seed = H(verif_seed, prop, i)
         faulthandler.dump_traceback_later(run_timeout, exit=True)
         plan = engine.generate(prop, run_seed, tier)
@@ -88,10 +91,20 @@ def worker_main(argv: list[str]) -> int:
             if kf is not None:
                 rec["known"] = kf.get("id", kf.get("what", "known"))
             else:
-                # minimise, then write the replay file
+                # minimise, then write the replay file (only the first worker to find a
+                # violation minimises; the others report theirs as found and stop)
+                first = True
+                if stopfile:
+                    try:
+                        os.close(os.open(stopfile, os.O_CREAT | os.O_EXCL | os.O_WRONLY))
+                    except FileExistsError:
+                        first = False
                 faulthandler.dump_traceback_later(600, exit=True)
                 inv = res.violation["inv"]
-                small, nexec = shrink.minimise(plan, inv, max_exec=300, max_s=150.0)
+                if first:
+                    small, nexec = shrink.minimise(plan, inv, max_exec=300, max_s=150.0)
+                else:
+                    small, nexec = plan, 0
                 r2 = engine.execute(small)
                 if r2.violation is None or r2.violation["inv"] != inv:
                     small, r2 = plan, res
@@ -191,6 +204,10 @@ def run_check(prop: str, tier: str, verif_seed: int, *, budget: float | None = N
     env["PYTHONHASHSEED"] = "0"
     env["OMP_NUM_THREADS"] = "1"
     env["MKL_NUM_THREADS"] = "1"
+    import tempfile
+
+    stopdir = tempfile.mkdtemp(prefix="cirsim-stop-")
+    env["CIRSIM_STOPFILE"] = os.path.join(stopdir, "violation-found")
     agg = Agg()
     t0 = time.monotonic()
     procs: list[subprocess.Popen[str]] = []
@@ -241,6 +258,9 @@ def run_check(prop: str, tier: str, verif_seed: int, *, budget: float | None = N
             worker_fail += 1
     for t in threads:
         t.join(timeout=5)
+    import shutil
+
+    shutil.rmtree(stopdir, ignore_errors=True)
     wall = time.monotonic() - t0
     # A run that ended in a harness exception, or a worker that was killed (per-run timeout,
     # address-space limit), gives *no verdict* for those runs; they are counted in the evidence
